@@ -4,6 +4,7 @@ import (
 	"os"
 	"path/filepath"
 	"regexp"
+	"strings"
 	"time"
 
 	"github.com/spf13/afero"
@@ -13,10 +14,10 @@ import (
 // its parts so that oracles can snapshot the layers behind the wrapper.
 type Stack struct {
 	Name    string
-	Fs      afero.Fs            // what the script talks to
-	Base    afero.Fs            // bottom layer (mem or os), direct access
-	Layer   afero.Fs            // overlay / cache layer, if any
-	Root    string              // where script path "/" lives inside Base ("" = identity)
+	Fs      afero.Fs // what the script talks to
+	Base    afero.Fs // bottom layer (mem or os), direct access
+	Layer   afero.Fs // overlay / cache layer, if any
+	Root    string   // where script path "/" lives inside Base ("" = identity)
 	Cleanup func()
 }
 
@@ -39,7 +40,14 @@ func NewStack(name string) *Stack {
 			panic(err)
 		}
 		o := afero.NewOsFs()
-		return &Stack{Name: name, Fs: &rootedFs{o, dir}, Base: o, Root: dir, Cleanup: func() { os.RemoveAll(dir) }}
+		return &Stack{Name: name, Fs: &rootedFs{o, dir, false}, Base: o, Root: dir, Cleanup: func() { os.RemoveAll(dir) }}
+	case "osraw": // the OS file system with names handed on as spelled (the kernel resolves "x/../y" through x)
+		dir, err := os.MkdirTemp("", "verif-osraw-")
+		if err != nil {
+			panic(err)
+		}
+		o := afero.NewOsFs()
+		return &Stack{Name: name, Fs: &rootedFs{o, dir, true}, Base: o, Root: dir, Cleanup: func() { os.RemoveAll(dir) }}
 	case "bp":
 		m := afero.NewMemMapFs()
 		m.MkdirAll("/base", 0o755)
@@ -68,9 +76,15 @@ func NewStack(name string) *Stack {
 type rootedFs struct {
 	afero.Fs
 	dir string
+	raw bool // hand the name on as spelled (the caller keeps ".." elements inside the directory)
 }
 
-func (r *rootedFs) p(name string) string { return filepath.Join(r.dir, filepath.Clean("/"+name)) }
+func (r *rootedFs) p(name string) string {
+	if r.raw {
+		return r.dir + "/" + strings.TrimLeft(name, "/")
+	}
+	return filepath.Join(r.dir, filepath.Clean("/"+name))
+}
 
 func (r *rootedFs) Create(name string) (afero.File, error) { return r.Fs.Create(r.p(name)) }
 func (r *rootedFs) Mkdir(name string, perm os.FileMode) error {
